@@ -51,6 +51,12 @@ def limit_spellings(value):
         result += [name, name.title(), name.upper()]
     if 32 < value < 0x110000 and value not in (34, 39, 92) and not (0xD800 <= value < 0xE000) and chr(value).isprintable():
         result += ["'%s'" % chr(value), '"%s"' % chr(value)]
+    if value == 34:  # the quote characters and the backslash: inside the other kind of quotes, or escaped
+        result += ["'\"'", '"\\""']
+    elif value == 39:
+        result += ['"\'"', "'\\''"]
+    elif value == 92:
+        result += ['"\\\\"', "'\\\\'"]
     if 0 <= value < 256:
         result.append('"\\x%02x"' % value)
         escapes = {9: "\\t", 10: "\\n", 13: "\\r"}
